@@ -140,6 +140,7 @@ def run_scenario(ctx, col, case, tag, rng, transport, regime, lat, n, errors_at,
             "noise_at": sorted(noise_at), "drop_at": drop_at,
             "async_error_after": {k: v.decode() for k, v in (async_after or {}).items()}}
     pert = sched.Perturber(sched.printrun_functions(), seed=rng.randrange(1 << 30), p_yield=0.25, p_sleep=0.01)
+    use_cm = rng.random() < 0.3
     short_timeout = None
     if LAT[lat][0] >= 0.02 and rng.random() < 0.5:
         short_timeout = LAT[lat][0] / rng.choice([2, 10])     # shorter than every acknowledgement latency
@@ -148,7 +149,10 @@ def run_scenario(ctx, col, case, tag, rng, transport, regime, lat, n, errors_at,
 
     def body():
         try:
-            w.connect()
+            if use_cm:
+                w.__enter__()       # `with SerialWriter(...) as w:` form
+            else:
+                w.connect()
         except Exception as e:
             state["connect_error"] = repr(e)
             return
@@ -176,7 +180,10 @@ def run_scenario(ctx, col, case, tag, rng, transport, regime, lat, n, errors_at,
             if drop_at is not None and out != "ok":
                 break
         try:
-            w.disconnect(True)
+            if use_cm:
+                w.__exit__(None, None, None)
+            else:
+                w.disconnect(True)
         except Exception as e:
             state["disconnect_error"] = repr(e)
         state["disconnect_t"] = time.monotonic_ns()
